@@ -201,6 +201,51 @@ def check_requests(client_ids, ctx_list, deadlines, args):
   return {'n': n, 'keys': len(keys), 'viol': viol, 'sample': sample}
 
 
+def check_unencodable():
+  """Caller properties whose value is not text (None, a number, bytes, a list), alone and next to a text property: the call may
+  be rejected, but whatever is written to the connection must still be a well-formed Tdispatch for that call."""
+  viol = []
+  n = 0
+  odd = [None, 0, 5, b'raw', ['l'], 1.5]
+  for cid in (None, 'c'):
+    for v in odd:
+      for extra in ({}, {'a': 'x'}, {'zz': 'y'}):
+        for key in ('k', 'é'):
+          n += 1
+          world.reset()
+          ch = Chain(cid)
+          props = dict(extra)
+          props[key] = v
+          raw0 = len(ch.peer.raw)
+          frames, evt, st = ch.call('u%d' % n, 'arg', props, None)
+          written = bytes(ch.peer.raw[raw0:])
+          resp = ch.term.responses.get('u%d' % n)
+          bad = None
+          if ch.peer.errors:
+            bad = 'the peer cannot split what was written into frames: %s' % ch.peer.errors[0]
+          elif not written:
+            if not resp or resp[0][1].error is None:
+              bad = 'nothing was written and the caller was not given an error (%r)' % (resp,)
+          else:
+            ds = [f for f in frames if f[0] == M.T_DISPATCH]
+            if len(ds) != 1:
+              bad = 'wrote %d bytes that are not exactly one Tdispatch (%d frames)' % (len(written), len(frames))
+            else:
+              try:
+                d = M.decode_tdispatch(ds[0][2])
+                hdr, log, _ = decode_thrift_call(ch.H, d['payload'])
+                if log != [('hi', 'arg')] or d['dst'] != b'' or d['dtab'] != []:
+                  bad = 'the Tdispatch decodes to dst=%r dtab=%r call=%r' % (d['dst'], d['dtab'], log)
+              except Exception as e:  # noqa
+                bad = 'the Tdispatch body does not decode: %r' % (e,)
+          if bad:
+            viol.append({'clause': 'C13.dispatch-body', 'message': 'caller property %r=%r (others %r, client id %r): %s' % (key, v, extra, cid, bad),
+                         'sig': {'unencodable': True}})
+            if len(viol) >= 3:
+              return {'n': n, 'keys': n, 'viol': viol, 'sample': None}
+  return {'n': n, 'keys': n, 'viol': viol, 'sample': {'unencodable_values': [repr(x) for x in odd]}}
+
+
 def check_discards(n_requests):
   """Requests whose deadline fires after the frame was written: a Tdiscarded naming the tag must follow."""
   viol = []
@@ -468,6 +513,7 @@ def main(tier, seed):
     out.append(explore.pmap('vt.checks.c13', 'check_replies', [()], pool, seed)[0])
     out.append(explore.pmap('vt.checks.c13', 'check_interleave', [()], pool, seed)[0])
     out.append(explore.pmap('vt.checks.c13', 'check_two_services', [()], pool, seed)[0])
+    out.append(explore.pmap('vt.checks.c13', 'check_unencodable', [()], pool, seed)[0])
     nreq = sum(o['n'] for o in out)
     rep.part('frames through the real sinks', engine='E', cases=nreq, context_dicts=len(ctxs), client_ids=CLIENT_IDS,
              deadlines=deadlines, strings=[s[:8] for s in STRS])
@@ -490,7 +536,7 @@ def main(tier, seed):
   finally:
     pool.close()
     pool.join()
-  rep.assumptions += ['context keys and values are text; other value types are rejected by the serializer and are outside the alphabet',
+  rep.assumptions += ['context keys and values are text; for values of other types (None, numbers, bytes, lists) only "nothing malformed reaches the wire" is checked',
                       'the deadline context is checked for presence and its 16-byte length only']
   return rep.finish(
     rule='full product of client id x caller-property dictionaries (0-2 entries over 5 strings incl. empty, non-ASCII, 300 chars) x '
